@@ -904,7 +904,9 @@ class Scoped(object):
         self.res = res
 
     def violation(self, what, replay, no_input=False):
-        concrete = "model 'ERR RuntimeError'" in what
+        # concrete: a proved RuntimeError guard answered otherwise, or a direct oracle that involves no model at all
+        concrete = "model 'ERR RuntimeError'" in what or what.startswith(('ListOrdering: == and != agree', 'ListOrdering != a non-ordering',
+                                                                          'Ordering(list) and ListOrdering(list) disagree'))
         self.res.violation(what, dict(replay, correspondence='OBDD API model (PMC/Model/BDDApi.lean) vs pyModelChecking.BDD'),
                            no_input=not concrete)
 
